@@ -39,7 +39,9 @@ def model_checks(ctx, thorough):
     must_hold = [(2, "val", {}), (2, "coll", {}), (2, "bus", {}), (2, "rtr", {}),
                  (2, "stream", {}), (3, "group", {}),
                  # two instances built from package-level defaults: nothing shared / an immutable initial message shared
-                 (2, "dflt", {}), (2, "dflt", {"DefaultShared": '"message"'})]
+                 (2, "dflt", {}), (2, "dflt", {"DefaultShared": '"message"'}),
+                 # caller-owned option values shared between calls on two instances: the library only reads them
+                 (2, "opt", {})]
     if thorough:
         must_hold += [(2, "coll", {"RngGuard": '"writelock"'}), (3, "val", {}), (3, "coll", {}), (3, "bus", {}), (3, "rtr", {})]
     # disciplines the code was found with, and seeded deviations: NoRace must FAIL, and only where expected
@@ -56,6 +58,8 @@ def model_checks(ctx, thorough):
         ("seeded: Value.Get without RLock", 2, "val", {"Mutant": '"getNoRLock"'}, None),
         ("seeded: Bus.collect without listenerM", 2, "bus", {"Mutant": '"collectNoLock"'}, None),
         ("seeded: router.Has without lock", 2, "rtr", {"Mutant": '"hasNoLock"'}, None),
+        ("seeded: the library normalises the caller's update mask in place when the shared option is applied", 2, "opt",
+         {"Mutant": '"optionNormalisedInPlace"'}, "OnlyOptionRaces"),
     ]
     jobs = []
     for n, fam, over in must_hold:
@@ -294,6 +298,8 @@ def run(ctx):
     ctx.cov["events_read_by_consumers"] = sum(o["events"] for o in obs)
     multi = [l for l in tr.out.splitlines() if l.startswith('"MULTI ')]
     ctx.cov["programs_with_2_or_3_instances_from_package_defaults"] = int(multi[0].strip('"').split()[1]) if multi else 0
+    optl = [l for l in tr.out.splitlines() if l.startswith('"OPTS ')]
+    ctx.cov["programs_with_two_processes_sharing_option_values"] = int(optl[0].strip('"').split()[1]) if optl else 0
     cover = tr.cases("COVER ")
     ctx.cov["model_disciplines_exercised"] = sorted(cover[0]) if cover else []
     kinds = {}
@@ -313,7 +319,9 @@ def run(ctx):
                        "16 more trait models constructed from their package default options only, package-level helpers and "
                        "variables, InfoServer); two programs in three have 2-3 instances of every type (instances 2 and 3 built "
                        "with no options, so they share whatever the package-level defaults hold) with every process on one "
-                       "instance, "
+                       "instance; every program has one kit of option VALUES (write/read/resource/router/model options, the "
+                       "masks and messages inside them, request messages) built once and handed to the calls of all processes "
+                       "by the ...shared and o.new* kinds, "
                        "with interceptors/callbacks/consumers that read everything they are given; each program runs "
                        "%d times free-running under the race detector (evaluations = programs x iterations); "
                        "non-trivial = RaceTrace.tla confirms on what ran that all operations completed and two different "
